@@ -89,6 +89,28 @@ pub mod helpers_check {
             }
             check!("option_map_or", Some(a).map_or(-7, |v| v / 2) == a / 2 && None::<i64>.map_or(-7, |v| v / 2) == -7, json!({"a": a}));
         }
+        // the facts a faithful Queryable implementor satisfies (proof fns without body in contracts/queryable_trait.rs), on both implementations
+        fn facts<T: crate::query::queryable::Queryable>(rep: &mut Report, tag: &str, v: &T, depth: usize) {
+            rep.evaluations += 1; rep.nontrivial += 1;
+            for k in ["a", "b", "'a'", "\"a\"", "0", "", "zz"] {
+                if v.get(k).is_some() && v.as_object().is_none() { rep.fail("helpers.queryable.get_only_on_objects", &[], json!({"impl": tag, "key": k})); }
+            }
+            if v.as_array().is_some() && v.as_object().is_some() { rep.fail("helpers.queryable.array_xor_object", &[], json!({"impl": tag})); }
+            if depth > 0 {
+                if let Some(a) = v.as_array() { for e in a { facts(rep, tag, e, depth - 1); } }
+                if let Some(o) = v.as_object() { for (_, e) in o { facts(rep, tag, e, depth - 1); } }
+            }
+        }
+        fn conv<T: crate::query::queryable::Queryable>(rep: &mut Report, tag: &str) {
+            rep.evaluations += 1; rep.nontrivial += 1;
+            for b in [true, false] { if T::from(b).as_bool() != Some(b) { rep.fail("helpers.queryable.from_bool_roundtrip", &[], json!({"impl": tag, "b": b})); } }
+        }
+        conv::<serde_json::Value>(&mut rep, "serde_json::Value");
+        conv::<super::kjson::J>(&mut rep, "kjson::J");
+        for d in super::gen::docs(8, 1) {
+            facts(&mut rep, "serde_json::Value", &d, 4);
+            facts(&mut rep, "kjson::J", &super::kjson::from_value(&d), 4);
+        }
         rep.samples.push(json!({"helpers": ["vf_chain_collect", "vf_zip_all", "vf_enumerate_map_collect", "vf_into_map_collect", "vf_iter_map_collect", "vf_flat_map_collect_raw", "vf_iter_any", "vf_iter_all",
                                             "vf_enumerate_filter_map_collect_raw", "vf_filter_map_collect_raw", "vf_iter_fold", "vf_map_reduce_or", "vf_chars_count", "vf_str_lt"],
                                 "bound": "vectors of length 0..=4 over {0,1,2}; 22 strings incl. every UTF-8 length boundary"}));
